@@ -130,6 +130,21 @@ theorem build_ok {w : World} {o : Opts} {tm : Option Tmpl} {t : Path} {txt out :
         simp only [hp, Except.ok.injEq] at h
         exact ⟨s, p, rfl, hp, h.symm⟩
 
+/-- a success of the builder is a success of the text-level `add_header_to_file` on the text behind
+    the byte order mark, which goes back in front -/
+theorem build_ok_text {w : World} {o : Opts} {tm : Option Tmpl} {t : Path} {txt out : Text}
+    (h : build w o tm t txt = .ok out) :
+    ∃ s out', styleFor o t = some s ∧
+      annotateText (hdrCfg w o tm s) (!o.noReplace) false (requested w o) (dropBom txt) = .written out' ∧
+      out = bomOf txt ++ out' := by
+  obtain ⟨-, s, p, hs, hp, hout⟩ := build_ok h
+  refine ⟨s, _, hs, ?_, hout⟩
+  rw [annotateText_noskip]
+  show (match headerParts (hdrCfg w o tm s) (!o.noReplace) (requested w o) (workText txt) with
+    | .error e => AnnotateOut.failed e
+    | .ok p => .written (retranslate (detectLineEnding (dropBom txt)) (placeHeader p.1 p.2.1 p.2.2.1 p.2.2.2))) = _
+  rw [hp]
+
 /-- an empty text holds no REUSE information (a sibling created for the attempt is not "existing") -/
 theorem hasInfo_nil (w : World) (o : Opts) (fs : Fs) : (envOf w o fs).hasInfo [] = false := by
   show containsReuseInfo w.parses (dropBom []) = false
